@@ -11,6 +11,7 @@ import (
 	"sync"
 
 	"github.com/nspcc-dev/neo-go/pkg/crypto/keys"
+	"github.com/nspcc-dev/neo-go/pkg/neorpc/result"
 	"github.com/nspcc-dev/neo-go/pkg/rpcclient"
 	"github.com/nspcc-dev/neo-go/pkg/vm/stackitem"
 	"github.com/nspcc-dev/neo-go/pkg/wallet"
@@ -80,6 +81,14 @@ func invokeJSON(halt bool, exception string, stack []stackitem.Item) any {
 	}
 	items := make([]json.RawMessage, 0, len(stack))
 	for _, it := range stack {
+		if iter, ok := it.Value().(result.Iterator); ok { // an iterator expanded in place (no sessions)
+			b, err := json.Marshal(iter)
+			if err != nil {
+				panic(err)
+			}
+			items = append(items, b)
+			continue
+		}
 		b, err := stackitem.ToJSONWithTypes(it)
 		if err != nil {
 			panic(err)
